@@ -19,6 +19,14 @@ def build(chk):
     with open(wrapper, 'w') as f:
         f.write('#!/bin/sh\nexec %s %s\n' % (hexe, vlib.REPO))
     os.chmod(wrapper, 0o755)
+    # the exhaustive per-font sweeps run on the -O1 sanitized build (value agreement over 2.2M lookups per font)
+    impl1 = vlib.build_impl('direct', 'asan1')
+    hexe1 = vlib.build_harness('impl_cmap', impl1, san='asan1', srcs=[])
+    wrapper1 = os.path.join(os.path.dirname(hexe1), 'run_cmap.sh')
+    with open(wrapper1, 'w') as f:
+        f.write('#!/bin/sh\nexec %s %s\n' % (hexe1, vlib.REPO))
+    os.chmod(wrapper1, 0o755)
+    chk.sweep_wrapper = wrapper1
     return vlib.build_model_driver('Cmap'), wrapper
 
 
@@ -120,13 +128,13 @@ def run(chk):
     mexe, wrapper = build(chk)
     cases, meta = gen_cases(chk)
     # API level: every code point of every shipped font, direct vs cached
-    fonts = FONTS if chk.tier == 'thorough' else FONTS[:3]
+    fonts = FONTS if chk.tier == 'thorough' else FONTS[:6]
     fcases = []
     for fn in fonts:
         for opts in (0, 4):
             fcases.append('f%d font %s %d' % (len(fcases), fn, opts))
     ml, il, ierr = vlib.run_pair(mexe, wrapper, cases, timeout=2400)
-    _, fl, ferr = vlib.run_pair(None, wrapper, fcases, timeout=2400)
+    _, fl, ferr = vlib.run_pair(None, chk.sweep_wrapper, fcases, timeout=2400)
     ndis, classes, dist = 0, set(), {}
     for c, mt, m, i in zip(cases, meta, ml, il):
         dist[mt['kind']] = dist.get(mt['kind'], 0) + 1
